@@ -53,8 +53,8 @@ def pop {α : Type} (xs : List α) : Except Py.Exc (List α) :=
 /-- `sorted(s)` for a set of str kept as a list of its members (any order, repetitions allowed): sorted and duplicate-free -/
 abbrev sortedSet (s : List Str) : List Str := Date.sortedSet s
 
-/-- the distinct members of a set kept as a list -/
-def distinct {α : Type} [BEq α] (s : List α) : List α := s.eraseDups
+/-- the distinct members of a set of str kept as a list, in SOME order (`len(s)`, `[x] = s`): here in sorted order -/
+abbrev distinct (s : List Str) : List Str := Date.sortedSet s
 
 /-- `sep.join(xs)` -/
 abbrev join (sep : Str) (xs : List Str) : Str := Hdr.joinWith sep xs
@@ -106,5 +106,45 @@ def searchAlt (db : Hdr.UDB) (patterns : List Str) (line : Str) : Option Unit :=
 
 /-- `match.group(1) is None` for the Content-Type regex: group 1 is the optional `text/plain; ` prefix -/
 def ctGroup1 (m : Bool × Str) : Option Unit := if m.1 then some () else none
+
+/-! ### the charset fragment of `check_mime`: `lib.encodings` / `lib.ling` calls, in terms of C20's model (`Charset.Env` = what the fragment
+needs to know about the codecs; strings cross as `Hdr.toName` / `Hdr.ofName`) -/
+
+/-- `encinfo.is_ascii_compatible_encoding(encoding, missing_ok=False)`; `EncodingLookupError` is `LookupError` -/
+def isAsciiCompatible (cs : Charset.Env) (enc : Str) : Except Py.Exc Bool :=
+  match Charset.isAsciiCompatible cs.interestingStr (cs.dec (Hdr.toName enc)) false with
+  | .ok b => .ok b
+  | .error () => .error .LookupError
+
+/-- `encinfo.is_portable_encoding(encoding)` -/
+def isPortable (cs : Charset.Env) (enc : Str) : Bool := Charset.isPortable cs.tbl true (Hdr.toName enc)
+
+/-- `encinfo.propose_portable_encoding(encoding)`; its `assert` is `AssertionError` -/
+def propose (cs : Charset.Env) (enc : Str) : Except Py.Exc (Option Str) :=
+  match Charset.propose cs.tbl cs.c2e cs.lookup (Hdr.toName enc) with
+  | .ok p => .ok (p.map Hdr.ofName)
+  | .error () => .error .AssertionError
+
+/-- `ctx.language.get_unrepresentable_characters(encoding)` for a language whose character list is `chars` (`none`: it has none and the
+    method returns `None`, rendered as the empty list: the caller only tests the truth value); an exception other than
+    `UnicodeEncodeError` escaping from `str.encode` is rendered as `NotImplemented` -/
+def getUnrepresentable (cs : Charset.Env) (chars : Option (List (List Nat))) (enc : Str) : Except Py.Exc (List Str) :=
+  match chars with
+  | none => .ok []
+  | some chars =>
+    match Charset.getUnrepresentable (cs.encode (Hdr.toName enc)) chars with
+    | .ok u => .ok (u.map Hdr.ofName)
+    | .error () => .error .NotImplemented
+
+/-- `s.replace(old, new)` (left to right, non-overlapping; `old` non-empty) -/
+def replaceAux (old new : Str) : Nat → Str → Str
+  | 0, s => s
+  | _ + 1, [] => []
+  | fuel + 1, c :: cs =>
+    match Hdr.stripPrefix old (c :: cs) with
+    | some rest => new ++ replaceAux old new fuel rest
+    | none => c :: replaceAux old new fuel cs
+
+def replace (s old new : Str) : Str := if old.isEmpty then s else replaceAux old new (s.length + 1) s
 
 end I18n.HdrPy
